@@ -182,6 +182,39 @@ theorem fits_untouched (t : Transport) (cfgMax idle : Nat) (req : Option Opt) (r
 example : (serve .udp 1232 0 sampleReq smallResp 0 0).cut = { ka := 1, kn := 0, ke := 0, tc := false } := by
   decide
 
+/-- **fits_compressed_untouched.** The same at the strength the code really has: it is enough that
+the response fits *compressed* (the library's own running length of header + question + every record,
+plus the OPT record it carries when it is measured).  Then no record is dropped and TC stays clear,
+on every transport — records are dropped only when they must be.  `AllPos`: every record has a
+positive length. -/
+theorem fits_compressed_untouched (t : Transport) (cfgMax idle : Nat) (req : Option Opt) (r : Resp)
+    (draw slack : Nat) (htc : r.tc = false)
+    (ha : AllPos r.ans) (hn : AllPos r.ns) (he : AllPos r.extra)
+    (hfit : r.q + sum r.ans + sum r.ns + sum r.extra + optLen? (baseOpt false req r)
+      ≤ (if t.isUdp then limit req (t.cap cfgMax) else 65535)) :
+    (serve t cfgMax idle req r draw slack).cut =
+      { ka := r.ans.length, kn := r.ns.length, ke := r.extra.length, tc := false } := by
+  have hl : max (maxDNSSize t.isUdp (advertised req) (t.cap cfgMax)) minMsgSize
+      = (if t.isUdp then limit req (t.cap cfgMax) else 65535) := by
+    cases hu : t.isUdp <;> simp [maxDNSSize, limit, minMsgSize, maxMsgSize] <;> omega
+  rw [serve_cut]
+  unfold truncate msgTruncate
+  rw [hl]
+  by_cases hx : (tsigAtTruncate req r ||
+      decide (r.unc + optLen? (baseOpt false req r) ≤ if t.isUdp = true then limit req (t.cap cfgMax) else 65535)) = true
+  · simp [hx, htc]
+  · have hc := cutOver_all (if t.isUdp = true then limit req (t.cap cfgMax) else 65535)
+      (optLen? (baseOpt false req r)) r ha hn he (by omega)
+    simp only [hx, Bool.false_eq_true, ↓reduceIte, hc, htc]
+
+example : AllPos sampleResp.ans ∧ AllPos sampleResp.ns ∧ AllPos sampleResp.extra ∧
+    sampleResp.q + sum sampleResp.ans + sum sampleResp.ns + sum sampleResp.extra
+      + optLen? (baseOpt false nsidSmallReq sampleResp) ≤ limit nsidSmallReq (Transport.cap .udp 1232) ∧
+    ¬ (sampleResp.unc + optLen? (baseOpt false nsidSmallReq sampleResp) ≤ 598) ∧
+    (serve .udp 1232 0 nsidSmallReq sampleResp 0 0).cut = { ka := 1, kn := 1, ke := 1, tc := false } := by
+  refine ⟨?_, ?_, ?_, by decide, by decide, by decide⟩ <;> intro x hx <;>
+    simp [sampleResp] at hx <;> omega
+
 /-- **tc_implies_no_answers.** A response that leaves with TC set carries no answers. -/
 theorem tc_implies_no_answers (t : Transport) (cfgMax idle : Nat) (req : Option Opt) (r : Resp)
     (draw slack : Nat) :
@@ -465,6 +498,9 @@ theorem respond_is_serve (t : Transport) (cfgMax idle : Nat) (hdr : QHdr) (qe : 
     o.emitted = true ∧ ∃ r' d' s', o = serve t cfgMax idle req r' d' s' ∧
       (h = .wrote r' ∨ r' = errResp qe none ∨ r' = errResp qe (edeOpt req)) := by
   unfold respond respondG at ho
+  by_cases hv : t = .doq ∧ validQUICMsg req = false
+  · rw [if_pos hv] at ho; cases ho
+  rw [if_neg hv] at ho
   cases hs : serverResp hdr qe req h with
   | some r =>
     have hr : h = .wrote r ∨ r = errResp qe none ∨ r = errResp qe (edeOpt req) := by
@@ -582,14 +618,58 @@ theorem respond_keepalive_only_when (t : Transport) (cfgMax idle : Nat) (hdr : Q
     · right; rw [this, hr]; cases req <;> rfl
   · right; exact this
 
+/-- A request OPT with the padding option only (a DoQ query must not carry keep-alive). -/
+def padOnlyReq : Option Opt :=
+  some { udpSize := 512, extRcode := 0, version := 0, dobit := true, z := 0,
+         opts := [{ code := 12, len := 3 }] }
+
+/-- **doq_keepalive_no_answer.** DoQ: a query that carries the edns-tcp-keepalive option is a
+protocol error (`validQUICMsg`, RFC 9250 5.5.2) — whatever else it contains and whatever the handler
+would do, nothing is written (the connection is closed), so in particular no keep-alive option is
+ever returned over DoQ. -/
+theorem doq_keepalive_no_answer (legacy : Bool) (cfgMax idle : Nat) (hdr : QHdr) (qe : Nat)
+    (req : Option Opt) (h : Handler) (draw slack draw2 : Nat)
+    (hk : reqHas codeKeepAlive req = true) :
+    respondG legacy .doq cfgMax idle hdr qe req h draw slack draw2 = none := by
+  have hv : validQUICMsg req = false := by
+    cases req with
+    | none => simp [reqHas] at hk
+    | some ro => simpa [validQUICMsg, reqHas] using hk
+  unfold respondG
+  rw [if_pos ⟨rfl, hv⟩]
+
+/-- Every other DoQ query is served like any stream query. -/
+theorem doq_valid_served (cfgMax idle : Nat) (hdr : QHdr) (qe : Nat) (req : Option Opt)
+    (r : Resp) (draw slack draw2 : Nat) (hk : reqHas codeKeepAlive req = false)
+    (ha : acceptMsg hdr = .accept)
+    (he : (serve .doq cfgMax idle req r draw slack).emitted = true) :
+    respond .doq cfgMax idle hdr qe req (.wrote r) draw slack draw2 =
+      some (serve .doq cfgMax idle req r draw slack) := by
+  have hv : ¬ (Transport.doq = .doq ∧ validQUICMsg req = false) := by
+    cases req with
+    | none => simp [validQUICMsg]
+    | some ro => simpa [validQUICMsg, reqHas] using hk
+  unfold respond respondG
+  rw [if_neg hv]
+  simp only [serverResp, ha]
+  unfold serve at he
+  simp [he, serve]
+
 /-- A query with two questions and an OPT record: FORMERR with the OPT echoed, on every transport. -/
 def twoQuestions : QHdr := { response := false, opcode := 0, nq := 2, nans := 0, nns := 0 }
 def goodQuery : QHdr := { response := false, opcode := 0, nq := 1, nans := 0, nns := 0 }
 
+example : reqHas codeKeepAlive sampleReq = true ∧
+    respond .doq 1232 0 goodQuery 29 sampleReq (.wrote smallResp) 0 0 0 = none ∧
+    reqHas codeKeepAlive padOnlyReq = false ∧ acceptMsg goodQuery = .accept ∧
+    (respond .doq 1232 0 goodQuery 29 padOnlyReq (.wrote smallResp) 0 0 0).map (·.wire) = some 61 := by
+  decide
+
+
 example : (respond .udp 1232 0 twoQuestions 29 sampleReq .silent 0 0 0).map (·.wire) = some 40 ∧
     (respond .udp 1232 0 goodQuery 29 sampleReq .silent 0 0 0) = none ∧
     (respond .dcUdp 1232 0 goodQuery 29 sampleReq .silent 0 0 0).map (·.wire) = some 40 ∧
-    (respond .doq 1232 0 goodQuery 29 sampleReq (.failed true) 0 0 0).map (·.wire) = some 51 ∧
+    (respond .doq 1232 0 goodQuery 29 padOnlyReq (.failed true) 0 0 0).map (·.wire) = some 51 ∧
     (respond .tcp 0 30000 goodQuery 29 sampleReq (.wrote bigResp) 0 0 0).map (·.wire) = some 46 := by
   decide
 
@@ -622,6 +702,42 @@ theorem dc_udp_visible_le (adv : Nat) (r1 : Resp) (opt : Option Opt) (hc : Contr
   simp only [dcTruncate, ↓reduceIte]
   simp only [dcSize, minMsgSize, ↓reduceIte] at this ⊢
   omega
+
+/-- **dc_udp_end_to_end.** DNSCrypt/UDP, composed: take any handler response `r` (library contract,
+not TSIG-terminated, header + question + 11 ≤ 512), let AdGuard DNS normalise it (`serve .dcUdp`) and
+let the DNSCrypt library truncate the result a second time.  `r1` is *any* description of the message
+handed to the library (its records with the lengths the library measures — the only facts used are
+that header + question are unchanged and the length contract).  Then what the client decrypts is at
+most `max(512, min(advertised, 65535))` bytes: the stated UDP limit, end to end. -/
+theorem dc_udp_end_to_end (cfgMax idle : Nat) (req : Option Opt) (r : Resp) (draw : Nat)
+    (hc : Contract r) (htsig : tsigAtTruncate req r = false) (hq : r.q + 11 ≤ 512)
+    (r1 : Resp) (hc1 : Contract r1) (hq1 : r1.q = r.q) :
+    finalLen r1 (dcTruncate true false (advertised req) r1 (serve .dcUdp cfgMax idle req r draw 0).opt)
+      (serve .dcUdp cfgMax idle req r draw 0).opt ≤ max 512 (advertised req) ∧
+    (advertised req ≤ 65535 →
+      finalLen r1 (dcTruncate true false (advertised req) r1 (serve .dcUdp cfgMax idle req r draw 0).opt)
+        (serve .dcUdp cfgMax idle req r draw 0).opt ≤ limit req (Transport.cap .dcUdp cfgMax)) := by
+  have h1 := dc_udp_visible_le (advertised req) r1 (serve .dcUdp cfgMax idle req r draw 0).opt hc1
+  have h2 := udp_bound .dcUdp rfl cfgMax idle req r draw 0 hc htsig hq
+  rw [serve_wire] at h2
+  have h3 : r.q + optLen? (prePack .dcUdp cfgMax idle req r draw) ≤
+      finalLen r (serve .dcUdp cfgMax idle req r draw 0).cut (prePack .dcUdp cfgMax idle req r draw) := by
+    unfold finalLen; split <;> omega
+  have h4 : optLen? (serve .dcUdp cfgMax idle req r draw 0).opt =
+      optLen? (prePack .dcUdp cfgMax idle req r draw) := by rw [serve_opt, optLen?_packOpt]
+  rw [h4, hq1] at h1
+  simp only [limit, Transport.cap, maxMsgSize] at h2 ⊢
+  constructor
+  · omega
+  · intro hadv; omega
+
+/-- The message handed to the library in the sample case and what the client sees of it. -/
+example : Contract sampleResp ∧ tsigAtTruncate nsidSmallReq sampleResp = false ∧
+    (serve .dcUdp 0 0 nsidSmallReq sampleResp 0 0).wire = 598 ∧
+    finalLen sampleResp (dcTruncate true false 4096 sampleResp
+      (serve .dcUdp 0 0 nsidSmallReq sampleResp 0 0).opt)
+      (serve .dcUdp 0 0 nsidSmallReq sampleResp 0 0).opt = 598 :=
+  ⟨sampleResp_contract, by decide, by decide, by decide⟩
 
 /-- **dc_udp_tc_no_answers.** DNSCrypt/UDP: whatever the library truncates leaves with TC set and
 an empty answer section. -/
@@ -689,6 +805,9 @@ branches of `acceptMsg` for such messages are unreachable over DNSCrypt. -/
 example : dcAccepts twoQuestions = false ∧ dcAccepts goodQuery = true := by decide
 
 #print axioms dc_udp_visible_le
+#print axioms dc_udp_end_to_end
+#print axioms doq_keepalive_no_answer
+#print axioms doq_valid_served
 #print axioms dc_udp_tc_no_answers
 #print axioms dc_enc_len
 #print axioms dc_frame_ok_iff
@@ -711,6 +830,7 @@ example : dcAccepts twoQuestions = false ∧ dcAccepts goodQuery = true := by de
 #print axioms udp_bound_tsig_counterexample
 #print axioms tsigResp_contract
 #print axioms fits_untouched
+#print axioms fits_compressed_untouched
 #print axioms udp_opt_is_trunc
 #print axioms udp_bound_everyday
 #print axioms prePack_is_trunc
@@ -759,3 +879,13 @@ end Agd.Normalize
 #print axioms Agd.Tie.TrC08.doh_normalizes_first
 #print axioms Agd.Tie.TrC08.doh_no_size_guard
 #print axioms Agd.Tie.TrC08.genErrorResponse_tr
+#print axioms Agd.Tie.TrC08.acceptMsg_tr
+#print axioms Agd.Tie.TrC08.serve_rejects
+#print axioms Agd.Tie.TrC08.serve_accepted
+#print axioms Agd.Tie.TrC08.addEDE_tr
+#print axioms Agd.Tie.TrC08.networkFromAddr_tr
+#print axioms Agd.Tie.TrC08.dnscrypt_write_path
+#print axioms Agd.Tie.TrC08.dnscrypt_udp_limit
+#print axioms Agd.Tie.TrC08.udp_write_path
+#print axioms Agd.Tie.TrC08.tcp_write_path
+#print axioms Agd.Tie.TrC08.doq_invalid_msg
